@@ -25,7 +25,7 @@ RULE = ("all lists (and dicts) of 1-3 (thorough 4) arrays over the same set of d
         "or a refusal is expected")
 ASSUMPTIONS = ["reference: coordinate maps of the inputs (mc/ref.py); python list concatenation for the concatenated labels"]
 
-X = {"eq": ("i", [10, 20]), "perm": ("i", [20, 10]), "ovl": ("i", [20, 30]), "disj": ("i", [40, 50]), "flt": ("f", [10.0, 20.0]), "one": ("i", [10]), "one2": ("i", [20])}
+X = {"eq": ("i", [10, 20]), "perm": ("i", [20, 10]), "ovl": ("i", [20, 30]), "disj": ("i", [40, 50]), "flt": ("f", [10.0, 20.0]), "frac": ("f", [10.5, 20.5]), "one": ("i", [10]), "one2": ("i", [20])}
 Y = {"eq": ("O", ["a", "b"]), "perm": ("O", ["b", "a"]), "ovl": ("O", ["b", "c"]), "disj": ("O", ["p", "q"])}
 Z = {"eq": ("f", [0.5, 1.5]), "perm": ("f", [1.5, 0.5])}
 # 3-label axes: mismatches that AGREE in some positions (reversal with a fixed point, overlap sharing positions, rotation)
@@ -39,7 +39,8 @@ def bounds(tier):
 
 # an array variant = (x-variant, y-variant, dim-order)
 VARS2 = [("eq", "eq", "xy"), ("eq", "perm", "xy"), ("eq", "ovl", "xy"), ("eq", "disj", "xy"), ("perm", "eq", "xy"), ("ovl", "eq", "xy"),
-         ("disj", "eq", "xy"), ("eq", "eq", "yx"), ("eq", "perm", "yx"), ("disj", "eq", "yx"), ("flt", "eq", "xy"), ("perm", "perm", "xy")]
+         ("disj", "eq", "xy"), ("eq", "eq", "yx"), ("eq", "perm", "yx"), ("disj", "eq", "yx"), ("flt", "eq", "xy"), ("perm", "perm", "xy"),
+         ("frac", "eq", "xy")]     # labels of another numeric type that the first operand's label type cannot hold
 VARS3 = [("eq", "eq", "xyz"), ("eq", "perm", "xyz"), ("disj", "eq", "xyz"), ("eq", "eq", "xzy"), ("eq", "eq", "zyx"), ("disj", "eq", "xzy"),
          ("eq", "eq", "yxz"), ("perm", "eq", "xyz")]
 VARS33 = [("eq3", "eq3", "xy"), ("eq3", "rev3", "xy"), ("eq3", "ovl3", "xy"), ("eq3", "swap3", "xy"), ("rev3", "eq3", "xy"), ("ovl3", "eq3", "xy"),
